@@ -827,12 +827,12 @@ Proof.
       assert (Hf1 : ~ In kc1 (form_chans k0)).
       { intros Hin. apply (Hfreshc kc1); [cbn; rewrite Er, Hn1; set_solver|]. simpl. apply in_app_iff. by right. }
       assert (Haf1 : affr (Some (ident cont)) (subst pay (m_c1 m) k0)).
-      { apply (affr_subst D F teq Hteq Δ (delete (ident cont) ∅) (Some (ident cont)) (rs ∖ {[ident pay]} ∖ {[ident cont]}) B k0 pay (m_c1 m) kc1 A (proj1 Hbp) Hkc1);
+      { apply (affr_subst D F teq Hteq Δ (delete (ident cont) ∅) (Some (ident cont)) (rs ∖ {[ident pay]} ∖ ({[ident cont]} ∖ {[""]})) B k0 pay (m_c1 m) kc1 A (proj1 Hbp) Hkc1);
           [intros [= E]; by apply Hpc|set_solver|exact Hk0|exact Hf1|exact Hlin]. }
-      assert (Hty1 : typed D F teq Δ (delete (ident cont) ∅) (Some (ident cont)) (rs ∖ {[ident pay]} ∖ {[ident cont]}) B (subst pay (m_c1 m) k0)).
+      assert (Hty1 : typed D F teq Δ (delete (ident cont) ∅) (Some (ident cont)) (rs ∖ {[ident pay]} ∖ ({[ident cont]} ∖ {[""]})) B (subst pay (m_c1 m) k0)).
       { apply (typed_subst D F teq Hteq Δ _ _ _ _ k0 pay (m_c1 m) A (proj1 Hbp));
           [eapply chan_ty_is_chan; eauto|intros [= E]; by apply Hpc|set_solver|exact Hk0]. }
-      apply (pnames_subst_shadow D F teq Hteq Δ _ _ _ _ cont (proj1 Hbc) (lookup_delete _ _) Hty1). exact Haf1.
+      apply (pnames_subst_shadow D F teq Hteq Δ _ _ _ _ cont Hbc (lookup_delete _ _) Hty1). exact Haf1.
     + destruct (rule_eqb (m_rule m) RSND) eqn:Er; [|discriminate]. apply rule_eqb_eq in Er.
       injection He as <-. eexists _, _. split; [reflexivity|]. cbn [pr_body0 set_body].
       rewrite Er in Hmt. destruct Hmt as (A' & B' & md' & Hwm & Hc1 & Hc2).
@@ -870,7 +870,7 @@ Proof.
       destruct (prov_pdes _ _ Hpf) as (Hpd & _ & _).
       simpl in Hlin. rewrite Hpd in Hlin. destruct Hlin as [_ Hlin].
       destruct (typed_brs_p_find D F teq Δ ∅ rs bs' bs _ _ _ Hbr Efb) as (A & _ & Hbp & HK).
-      apply (pnames_subst_shadow D F teq Hteq Δ _ _ _ _ pay (proj1 Hbp) (lookup_delete _ _) HK).
+      apply (pnames_subst_shadow D F teq Hteq Δ _ _ _ _ pay Hbp (lookup_delete _ _) HK).
       by apply (affr_find _ _ _ _ None Efb).
     + destruct (rule_eqb (m_rule m) RSEL) eqn:Er; [|discriminate]. apply rule_eqb_eq in Er.
       destruct (find_branch (m_label m) bs) as [[pay K]|] eqn:Efb; [|discriminate].
@@ -915,7 +915,7 @@ Proof.
       2: { destruct Hcf as [Hcf _]. congruence. }
       destruct (prov_pdes _ _ Hpf) as (Hpd & _ & _).
       simpl in Hlin. rewrite Hpd in Hlin. destruct Hlin as [_ Hlin].
-      apply (pnames_subst_shadow D F teq Hteq Δ _ _ _ _ x (proj1 Hbx) (lookup_delete _ _) Hk0). exact Hlin.
+      apply (pnames_subst_shadow D F teq Hteq Δ _ _ _ _ x Hbx (lookup_delete _ _) Hk0). exact Hlin.
     + destruct (rule_eqb (m_rule m) RCST) eqn:Er; [|discriminate]. apply rule_eqb_eq in Er.
       injection He as <-. eexists _, _. split; [reflexivity|]. cbn [pr_body0 set_body].
       rewrite Er in Hmt. destruct Hmt as (fm' & tm' & A' & Hwm & Hc1 & _).
